@@ -444,6 +444,9 @@ static void load_state(struct S *s, bool with_time_inv)
 	s->st = IN.st;
 	s->now = IN.now;
 	s->taint = IN.taint;
+#ifdef FIX_ST /* ... and per last result of the current fibre */
+	s->st = FIX_ST;
+#endif
 #ifdef FIX_NRQ /* partition of the universe: one query per (run queue length, timer queue length), assigned so that constants propagate */
 	s->nrq = FIX_NRQ;
 	s->ntq = FIX_NTQ;
@@ -498,6 +501,56 @@ void handle_atomic_runq_contract(void)
 	realise(&a);
 }
 
+/* ------------------------------------------------------------------------------------ raw snapshot (frame checks) */
+struct raw {
+	list_node_t *rh, *rt, *th, *tt, *next[NF];
+	uint32_t due[NF], now, flags, taint;
+	uint16_t priv[NF], state[NF];
+	fibre_t *buf[QD];
+	unsigned rcv, sendp;
+	int num_free;
+};
+
+static void snap(struct raw *r)
+{
+	r->rh = kernel.runq.head;
+	r->rt = kernel.runq.head ? kernel.runq.tail : NULL; /* the tail of an empty list is meaningless */
+	r->th = kernel.timerq.head;
+	r->tt = kernel.timerq.head ? kernel.timerq.tail : NULL;
+	for (unsigned i = 0; i < NF; i++) {
+		r->next[i] = F[i].link.next;
+		r->due[i] = F[i].duetime;
+		r->priv[i] = F[i].priv;
+		r->state[i] = F[i].state;
+	}
+	for (unsigned i = 0; i < QD; i++)
+		r->buf[i] = atomic_runq_buf[i];
+	r->now = kernel.now;
+	r->flags = ATOM(kernel.atomic_runq.full_flags);
+	r->taint = ATOM(kernel.taint_flags);
+	r->rcv = kernel.atomic_runq.receivep;
+	r->sendp = ATOM(kernel.atomic_runq.sendp);
+	r->num_free = ATOM(kernel.atomic_runq.num_free);
+}
+
+/* the scheduler's own queues and the fibres (everything an interrupt handler never touches) */
+static bool raw_eq_sched(const struct raw *a, const struct raw *b)
+{
+	bool eq = a->rh == b->rh && a->rt == b->rt && a->th == b->th && a->tt == b->tt && a->now == b->now;
+	for (unsigned i = 0; i < NF; i++)
+		eq = eq && a->next[i] == b->next[i] && a->due[i] == b->due[i] && a->priv[i] == b->priv[i] && a->state[i] == b->state[i];
+	return eq;
+}
+
+static bool raw_eq(const struct raw *a, const struct raw *b)
+{
+	bool eq = raw_eq_sched(a, b) && a->flags == b->flags && a->taint == b->taint && a->rcv == b->rcv && a->sendp == b->sendp && a->num_free == b->num_free;
+	for (unsigned i = 0; i < QD; i++)
+		eq = eq && a->buf[i] == b->buf[i];
+	return eq;
+}
+static struct raw BODY_RAW;
+
 /* ------------------------------------------------------------------------------------ contract-only fibre body */
 static struct S EXPECT_PRE, BODY_POST;
 static bool body_called, irq_body;
@@ -540,6 +593,7 @@ int verif_body(fibre_t *f)
 	VASSUME(wf_struct(&b) && wf_time(&b));
 	VASSUME(IN.b_res <= FAILED);
 	realise(&b);
+	snap(&BODY_RAW);
 	BODY_POST = b;
 	body_result = IN.b_res;
 	return body_result;
@@ -576,8 +630,17 @@ void h_next(void)
 		VASSERT(fibre_self() == NULL, "C01 fibre_self names nothing after an idle call");
 		VASSERT(r == s_wakeup(&EXPECT_PRE), "C03 an idle call returns now if a request is pending, else the earliest pending due time, else now+0x7fffffff");
 	}
-	if (body_called || EXPECT_PRE.cur == NONE)
+	if (EXPECT_PRE.cur == NONE) {
 		check_post(&want, "");
+	} else if (body_called) {
+		/* the state the body left behind was realised by the body stub itself: comparing the raw memory with the
+		 * snapshot taken there is the complete frame check and far cheaper than reading the state back through absS() */
+		struct raw now_;
+		snap(&now_);
+		VASSERT(raw_eq(&now_, &BODY_RAW), "C01 after the dispatched fibre returns the pass changes nothing: queues, fibres, pending requests and time base stay as the fibre left them");
+		VASSERT(kernel.state == (fibre_state_t)body_result && kernel.current == &F[EXPECT_PRE.cur], "C01 the scheduler records the result of the dispatched fibre and keeps it as the current fibre");
+		(void)want;
+	}
 	VCOVER(S0.ntq < 1 || (S0.np >= 1 && S0.cur != NONE && S0.st == YIELDED && (int32_t)(S0.due[S0.tq[0]] - t) <= 0 && EXPECT_PRE.nrq >= 1), "atomic requests, a yield and an expiring timer in one pass");
 	VCOVER(S0.nrq || S0.ntq || (S0.st == YIELDED && S0.np == 0 && S0.cur != NONE), "fast path");
 	VCOVER(S0.ntq < 1 || S0.nrq >= 1 || EXPECT_PRE.cur == NONE, "idle pass with a sleeper");
@@ -878,8 +941,18 @@ void h_irq_next(void)
 	uint32_t r = fibre_scheduler_next(t);
 	irq_on = false;
 	struct S got;
-	bool ok = absS(&got);
-	VASSERT(ok && wf_time(&got), "C06 the scheduler's own queues are never corrupted by the interruption, wherever it occurs in a pass");
+	bool ok;
+	if (body_called) {
+		/* the queues are as the dispatched fibre left them (raw comparison with the snapshot taken by the body stub) */
+		struct raw now_;
+		snap(&now_);
+		ok = raw_eq_sched(&now_, &BODY_RAW);
+		got = BODY_POST;
+		VASSERT(ok, "C06 the scheduler's own queues are never corrupted by the interruption, wherever it occurs in a pass");
+	} else {
+		ok = absS(&got);
+		VASSERT(ok && wf_time(&got), "C06 the scheduler's own queues are never corrupted by the interruption, wherever it occurs in a pass");
+	}
 	bool could_fast = S0.st == YIELDED && S0.nrq == 0 && S0.ntq == 0;
 	VASSERT(drain_called || (could_fast && !first_check_pending), "C06 a request that is pending when the fast-path test looks at the atomic queue sends the pass down the slow path");
 	bool yielded = body_called && body_result == YIELDED;
